@@ -343,7 +343,7 @@ def decodeCompressedLoop (T : Tables) (edition : Nat) (s4max : Nat) (g : Range) 
                       | .error e => .error e
                       | .ok (lst, eflag) =>
                         match lst with
-                        | a :: b :: more => .ok (ds ++ [b :: a :: dprev], ts ++ [more], inv || eflag)
+                        | a :: b :: more => .ok ((b :: a :: dprev) :: ds, more :: ts, inv || eflag)   -- built reversed
                         | _ => .error .null
                     | [] => .error .null
                 match (List.zip st.dones (List.zip col3 tails)).foldl step (.ok ([], [], false)) with
@@ -352,7 +352,7 @@ def decodeCompressedLoop (T : Tables) (edition : Nat) (s4max : Nat) (g : Range) 
                 | .error e => .error e
                 | .ok (ds, ts, inv) =>
                   decodeCompressedLoop T edition s4max g f
-                    { r := r2, invalid := inv1 || inv, ddos := ddos2, dones := ds, todos := ts, pendingDelayed := false }
+                    { r := r2, invalid := inv1 || inv, ddos := ddos2, dones := ds.reverse, todos := ts.reverse, pendingDelayed := false }
               else
                 let pend := !st.pendingDelayed && (Desc.f cb.desc = 1 && Desc.y cb.desc = 0)
                 decodeCompressedLoop T edition s4max g f
